@@ -64,10 +64,21 @@ def run_shard(spec, acc):
     dbx = refdb.db()
     rng = gen.rng_for(spec["seed"], ID, spec["name"])
     quick = spec["tier"] == "quick"
-    defs = [d for d in dbx.defs if d.supported and d.fixed_layout and any(f.pq for f in d.fields)]
-    defs = [d for k, d in enumerate(defs) if k % spec["n"] == spec["i"]]
+    # all definitions of a PGN number together (also those without any quantity field: they are what a sibling with
+    # convertible fields must not be confused with), decoded on long-lived decoders in interleaved order
+    all_defs = [d for d in dbx.defs if d.supported and d.fixed_layout]
+    pgns_with_q = sorted({d.pgn for d in all_defs if any(f.pq for f in d.fields)})
+    mine = {p for k, p in enumerate(pgns_with_q) if k % spec["n"] == spec["i"]}
+    defs = [d for d in all_defs if d.pgn in mine]
     plain = NMEA2000Decoder()
-    for d in defs:
+    maps = pref_maps(rng)
+    long_lived = [NMEA2000Decoder(preferred_units=lib_map) for lib_map, _ in maps]
+    order = []
+    for rnd in range(2 if quick else 6):
+        shuffled = list(defs)
+        rng.shuffle(shuffled)
+        order += shuffled
+    for d in order:
         nb = d.length if d.length is not None else (d.total_bits() + 7) // 8
         qfields = [f for f in d.fields if f.pq and f.match is None and f.bits is not None]
         payloads = []
@@ -81,7 +92,8 @@ def run_shard(spec, acc):
                     payloads.append(dbx.pack(d, raws))
         for _ in range(2 if quick else 30):
             payloads.append(dbx.pack(d, gen.base_raws(d, rng, dbx)))
-        maps = pref_maps(rng)
+        if quick:
+            payloads = payloads[:1] + rng.sample(payloads[1:], min(len(payloads) - 1, 12))
         for payload in payloads:
             if dbx.select(d.pgn, payload) is not d:
                 continue
@@ -92,8 +104,12 @@ def run_shard(spec, acc):
                 continue
             if m0 is None:
                 continue
-            for lib_map, want_map in (maps if not quick else rng.sample(maps, 4)):
-                dec = NMEA2000Decoder(preferred_units=lib_map)
+            picks = list(range(len(maps))) if not quick else rng.sample(range(len(maps)), 4)
+            for mi in picks:
+                lib_map, want_map = maps[mi]
+                # mostly the long-lived decoder of this preference map (it has seen every other definition of the
+                # shard before), sometimes a fresh one
+                dec = long_lived[mi] if rng.random() < 0.85 else NMEA2000Decoder(preferred_units=lib_map)
                 w = {"definition": d.id, "payload_hex": payload.to_bytes(nb, "little").hex(), "preferences": {k.name: v for k, v in lib_map.items()}}
                 try:
                     m1 = dec.decode_basic_string(line, already_combined=True)
